@@ -522,17 +522,125 @@ func (e *engine) shrink(h *History, want *death, budget int) (*History, int) {
 	}
 	out := *h
 	out.Steps = steps
-	// drop sessions no step refers to
+	return pruneSessions(&out), runs
+}
+
+// pruneSessions drops the sessions no step refers to (directly or through a
+// sid:N / inv:N reference) and renumbers the rest.
+func pruneSessions(h *History) *History {
 	used := map[int]bool{}
+	var markV func(v V)
+	markV = func(v V) {
+		switch {
+		case v.Ref != nil:
+			if i := strings.IndexByte(*v.Ref, ':'); i > 0 {
+				if n, err := strconv.Atoi((*v.Ref)[i+1:]); err == nil {
+					used[n] = true
+				}
+			}
+		case v.L != nil:
+			for _, x := range *v.L {
+				markV(x)
+			}
+		case v.LA != nil:
+			for _, x := range *v.LA {
+				markV(x)
+			}
+		case v.D != nil:
+			for _, x := range *v.D {
+				markV(x)
+			}
+		case v.M != nil:
+			for _, x := range *v.M {
+				markV(x)
+			}
+		}
+	}
 	var mark func(ss []Step)
 	mark = func(ss []Step) {
 		for _, s := range ss {
-			used[s.S] = true
+			if s.Op != "sleep" && s.Op != "par" {
+				used[s.S] = true
+			}
+			if s.M != nil {
+				for _, f := range s.M.F {
+					markV(f)
+				}
+			}
 			mark(s.Par)
 		}
 	}
-	mark(steps)
-	return &out, runs
+	mark(h.Steps)
+	remap := map[int]int{}
+	var sessions []SessionSpec
+	for i, sp := range h.Sessions {
+		if used[i] {
+			remap[i] = len(sessions)
+			sessions = append(sessions, sp)
+		}
+	}
+	if len(sessions) == len(h.Sessions) {
+		return h
+	}
+	var fixV func(v V) V
+	fixV = func(v V) V {
+		switch {
+		case v.Ref != nil:
+			if i := strings.IndexByte(*v.Ref, ':'); i > 0 {
+				if n, err := strconv.Atoi((*v.Ref)[i+1:]); err == nil {
+					return vRef(fmt.Sprintf("%s:%d", (*v.Ref)[:i], remap[n]))
+				}
+			}
+		case v.L != nil:
+			l := make([]V, len(*v.L))
+			for i, x := range *v.L {
+				l[i] = fixV(x)
+			}
+			return V{L: &l}
+		case v.LA != nil:
+			l := make([]V, len(*v.LA))
+			for i, x := range *v.LA {
+				l[i] = fixV(x)
+			}
+			return V{LA: &l}
+		case v.D != nil:
+			d := map[string]V{}
+			for k, x := range *v.D {
+				d[k] = fixV(x)
+			}
+			return V{D: &d}
+		case v.M != nil:
+			d := map[string]V{}
+			for k, x := range *v.M {
+				d[k] = fixV(x)
+			}
+			return V{M: &d}
+		}
+		return v
+	}
+	var fix func(ss []Step) []Step
+	fix = func(ss []Step) []Step {
+		out := make([]Step, len(ss))
+		for i, s := range ss {
+			if s.Op != "sleep" && s.Op != "par" {
+				s.S = remap[s.S]
+			}
+			if s.M != nil {
+				m := &Msg{T: s.M.T, F: make([]V, len(s.M.F))}
+				for j, f := range s.M.F {
+					m.F[j] = fixV(f)
+				}
+				s.M = m
+			}
+			s.Par = fix(s.Par)
+			out[i] = s
+		}
+		return out
+	}
+	res := *h
+	res.Sessions = sessions
+	res.Steps = fix(h.Steps)
+	return &res
 }
 
 func lastTrigger(h *History) string {
@@ -919,12 +1027,47 @@ func runMain(args []string) {
 	if *only != "" {
 		var f []*History
 		for _, h := range hs {
-			if strings.Contains(h.Name, *only) {
-				f = append(f, h)
+			for _, pat := range strings.Split(*only, ",") {
+				if pat != "" && strings.Contains(h.Name, pat) {
+					f = append(f, h)
+					break
+				}
 			}
 		}
 		hs = f
 	}
+	// the histories that reach the most router code per second first: when the
+	// budget ends a run early the rest is reported as skipped
+	prio := func(h *History) int {
+		switch {
+		case h.Stream == "corpus":
+			return 0
+		case strings.HasSuffix(h.Name, "/nofeature"):
+			return 1
+		case h.Stream == "repeat":
+			return 2
+		case h.Stream == "typeconf" && strings.Contains(h.Name, "/local/"):
+			return 3
+		case h.Stream == "frames" && strings.Contains(h.Name, "frametypes"):
+			return 4
+		case h.Stream == "states":
+			return 5
+		case h.Stream == "typeconf":
+			return 6
+		case h.Stream == "frames":
+			return 7
+		case h.Stream == "meta":
+			return 8
+		case h.Stream == "burst":
+			return 9
+		case h.Stream == "disconnect":
+			return 10
+		case h.Stream == "fieldconf":
+			return 11
+		}
+		return 12
+	}
+	sort.SliceStable(hs, func(i, j int) bool { return prio(hs[i]) < prio(hs[j]) })
 	// build: the full history for a stub
 	var genMu sync.Mutex
 	build := func(h *History) *History {
